@@ -38,6 +38,10 @@ func (msg Message) generateMarshalBebopTo(w *iohelp.ErrorWriter, settings Genera
 		writeFieldByter(name, fd.FieldType, w, settings, 2)
 		writeLineWithTabs(w, "}", 1)
 	}
+	// write the terminator explicitly instead of relying on buf being zeroed,
+	// and count it, so that the returned length equals Size().
+	writeLine(w, "\tbuf[at] = 0")
+	writeLine(w, "\tat++")
 	writeLine(w, "\treturn at")
 	writeCloseBlock(w)
 }
